@@ -137,7 +137,11 @@ func runShard(self, id, tier string, shard, of int, dir string, budget time.Dura
 		var stderr bytes.Buffer
 		cmd.Stderr = &stderr
 		cmd.Stdout = &stderr
-		cmd.Env = append(os.Environ(), "GOMAXPROCS=2", "GOTRACEBACK=single")
+		mp := 2
+		if p.MaxProcs > 0 {
+			mp = p.MaxProcs
+		}
+		cmd.Env = append(os.Environ(), fmt.Sprintf("GOMAXPROCS=%d", mp), "GOTRACEBACK=single")
 		err := cmd.Run()
 		if err == nil {
 			b, rerr := os.ReadFile(out)
